@@ -189,6 +189,9 @@ pub struct Iso<'a> {
     pub canon: CanonStats,
     pub funcs_compared: usize,
     pub ops_compared: usize,
+    /// ignore `i32.const K; drop` pairs with K in the edit-marker range in the
+    /// output (instructions inserted by edits::insert_const_drop)
+    pub strip_markers: bool,
 }
 
 type R = Result<(), Mismatch>;
@@ -212,6 +215,7 @@ impl<'a> Iso<'a> {
             canon: CanonStats::default(),
             funcs_compared: 0,
             ops_compared: 0,
+            strip_markers: false,
         }
     }
 
@@ -278,6 +282,10 @@ impl<'a> Iso<'a> {
                 if ia != ib {
                     return Err(mm(Area::Module, "table.imported", format!("{}: table {} ↔ {}", ctx, x, y)));
                 }
+                if ia {
+                    let (pa, pb) = (self.a.imp_tables.clone(), self.b.imp_tables.clone());
+                    self.same_import("table", &pa, &pb, x, y)?;
+                }
                 Ok(())
             }
             Ok(false) => Ok(()),
@@ -304,6 +312,10 @@ impl<'a> Iso<'a> {
                 let ib = (y as usize) < self.b.imp_mems.len();
                 if ia != ib {
                     return Err(mm(Area::Module, "memory.imported", format!("{}: memory {} ↔ {}", ctx, x, y)));
+                }
+                if ia {
+                    let (pa, pb) = (self.a.imp_mems.clone(), self.b.imp_mems.clone());
+                    self.same_import("memory", &pa, &pb, x, y)?;
                 }
                 Ok(())
             }
@@ -358,7 +370,10 @@ impl<'a> Iso<'a> {
         let na = self.a.imp_globals.len() as u32;
         let nb = self.b.imp_globals.len() as u32;
         match (x < na, y < nb) {
-            (true, true) => Ok(()),
+            (true, true) => {
+                let (pa, pb) = (self.a.imp_globals.clone(), self.b.imp_globals.clone());
+                self.same_import("global", &pa, &pb, x, y)
+            }
             (false, false) => {
                 let ia = self.a.globals[(x - na) as usize].init.clone();
                 let ib = self.b.globals[(y - nb) as usize].init.clone();
@@ -515,7 +530,24 @@ impl<'a> Iso<'a> {
         let (ca, st) = canonicalise(&ba.ops);
         // the output is canonicalised as well: walrus is free to keep dead
         // code it does not recognise (e.g. after return_call) or to drop it
-        let (cb, _) = canonicalise(&bb.ops);
+        let (mut cb, _) = canonicalise(&bb.ops);
+        if self.strip_markers {
+            let mut kept = Vec::with_capacity(cb.len());
+            let mut i = 0;
+            while i < cb.len() {
+                let is_marker = i + 1 < cb.len()
+                    && cb[i].name == "I32Const"
+                    && matches!(cb[i].imms.first(), Some(Imm::I32(k)) if (0x5eed00..0x5eed00 + 256).contains(k))
+                    && cb[i + 1].name == "Drop";
+                if is_marker {
+                    i += 2;
+                } else {
+                    kept.push(cb[i].clone());
+                    i += 1;
+                }
+            }
+            cb = kept;
+        }
         self.canon.nops += st.nops;
         self.canon.dead_ops += st.dead_ops;
         self.canon.if_no_else += st.if_no_else;
@@ -643,8 +675,31 @@ impl<'a> Iso<'a> {
         Ok(())
     }
 
+    /// (module, field) of the import that defines entity `idx` of the given kind
+    fn import_name(m: &ModuleD, positions: &[usize], idx: u32) -> Option<(String, String)> {
+        positions
+            .get(idx as usize)
+            .map(|p| (m.imports[*p].module.clone(), m.imports[*p].name.clone()))
+    }
+
+    fn same_import(&self, kind: &str, pa: &[usize], pb: &[usize], x: u32, y: u32) -> R {
+        let (na, nb) = (Self::import_name(self.a, pa, x), Self::import_name(self.b, pb, y));
+        if na != nb {
+            return Err(mm(
+                Area::Module,
+                format!("{}.import-name", kind),
+                format!("imported {} {} is {:?} in the input, its image {} is {:?}", kind, x, na, y, nb),
+            ));
+        }
+        Ok(())
+    }
+
     fn drain(&mut self) -> R {
         while let Some((x, y)) = self.pending_funcs.pop() {
+            if (x as usize) < self.a.imp_funcs.len() && (y as usize) < self.b.imp_funcs.len() {
+                let (pa, pb) = (self.a.imp_funcs.clone(), self.b.imp_funcs.clone());
+                self.same_import("function", &pa, &pb, x, y)?;
+            }
             // signature
             let (sa, sb) = (self.a.func_sig(x), self.b.func_sig(y));
             if sa.is_none() || sa != sb {
@@ -864,6 +919,250 @@ impl<'a> Iso<'a> {
                 "types.set",
                 format!("signature sets differ: only-in {:?} only-out {:?}", sa.difference(&sb).collect::<Vec<_>>(), sb.difference(&sa).collect::<Vec<_>>()),
             ));
+        }
+        Ok(())
+    }
+
+
+    /// GC-mode comparison: `b` is the output after the GC pass, i.e. a
+    /// sub-module of `a`. Every entity of `b` must correspond to exactly one
+    /// entity of `a` (injective), with equal content; imports and segments of
+    /// `b` are order-preserving subsequences of those of `a`.
+    pub fn run_gc(&mut self) -> R {
+        let a = self.a;
+        let b = self.b;
+        // exports: identical list
+        if a.exports.len() != b.exports.len() {
+            return Err(mm(
+                Area::Module,
+                "exports.count",
+                format!("{} exports ↔ {}", a.exports.len(), b.exports.len()),
+            ));
+        }
+        for (i, (p, q)) in a.exports.iter().zip(b.exports.iter()).enumerate() {
+            if p.name != q.name || p.kind != q.kind {
+                return Err(mm(Area::Module, "export.name-or-kind", format!("export {}: {:?} ↔ {:?}", i, p, q)));
+            }
+            let ctx = format!("export {} \"{}\"", i, p.name);
+            match p.kind {
+                ExtKind::Func => self.bind_func(p.index, q.index, Area::Module, &ctx)?,
+                ExtKind::Table => self.bind_table(p.index, q.index, Area::Module, &ctx)?,
+                ExtKind::Memory => self.bind_mem(p.index, q.index, Area::Module, &ctx)?,
+                ExtKind::Global => self.bind_global(p.index, q.index, Area::Module, &ctx)?,
+                ExtKind::Tag => {}
+            }
+        }
+        match (a.start, b.start) {
+            (None, None) => {}
+            (Some(x), Some(y)) => self.bind_func(x, y, Area::Module, "start")?,
+            (x, y) => return Err(mm(Area::Module, "start.presence", format!("start {:?} ↔ {:?}", x, y))),
+        }
+        self.drain()?;
+        // segments of the output: order-preserving, by trial
+        let mut from = 0u32;
+        for y in 0..b.elems.len() as u32 {
+            if let Some(x) = self.elems.rev.get(&y).copied() {
+                from = from.max(x + 1);
+                continue;
+            }
+            let cand = (from..a.elems.len() as u32)
+                .find(|x| !self.elems.fwd.contains_key(x) && self.try_pair(|s| s.bind_elem(*x, y, Area::Module, "gc element order")));
+            match cand {
+                Some(x) => {
+                    self.bind_elem(x, y, Area::Module, "gc element order")?;
+                    self.drain()?;
+                    from = x + 1;
+                }
+                None => {
+                    return Err(mm(
+                        Area::Module,
+                        "gc:elem-without-preimage",
+                        format!("output element segment {} matches no remaining input segment in order", y),
+                    ))
+                }
+            }
+        }
+        let mut from = 0u32;
+        for y in 0..b.datas.len() as u32 {
+            if let Some(x) = self.datas.rev.get(&y).copied() {
+                from = from.max(x + 1);
+                continue;
+            }
+            let cand = (from..a.datas.len() as u32)
+                .find(|x| !self.datas.fwd.contains_key(x) && self.try_pair(|s| s.bind_data(*x, y, Area::Module, "gc data order")));
+            match cand {
+                Some(x) => {
+                    self.bind_data(x, y, Area::Module, "gc data order")?;
+                    self.drain()?;
+                    from = x + 1;
+                }
+                None => {
+                    return Err(mm(
+                        Area::Module,
+                        "gc:data-without-preimage",
+                        format!("output data segment {} matches no remaining input segment in order", y),
+                    ))
+                }
+            }
+        }
+        // remaining output entities need a preimage
+        for y in 0..b.n_funcs() {
+            if !self.funcs.rev.contains_key(&y) {
+                let cands: Vec<u32> = (0..a.n_funcs()).filter(|x| !self.funcs.fwd.contains_key(x)).collect();
+                let mut best: Option<Mismatch> = None;
+                let mut found = None;
+                for x in cands {
+                    match self.trial_func(x, y) {
+                        Ok(()) => {
+                            found = Some(x);
+                            break;
+                        }
+                        Err(e) => {
+                            if best.as_ref().map(|b| e.progress > b.progress).unwrap_or(true) {
+                                best = Some(e);
+                            }
+                        }
+                    }
+                }
+                match found {
+                    Some(x) => {
+                        self.bind_func(x, y, Area::Module, "gc leftover function")?;
+                        self.drain()?;
+                    }
+                    None => {
+                        return Err(best.unwrap_or_else(|| {
+                            mm(Area::Module, "gc:func-without-preimage", format!("output function {} has no preimage", y))
+                        }))
+                    }
+                }
+            }
+        }
+        for y in 0..b.n_globals() {
+            if !self.globals.rev.contains_key(&y) {
+                let cand = (0..a.n_globals())
+                    .find(|x| !self.globals.fwd.contains_key(x) && self.try_pair(|s| s.bind_global(*x, y, Area::Module, "gc leftover global")));
+                match cand {
+                    Some(x) => self.bind_global(x, y, Area::Module, "gc leftover global")?,
+                    None => return Err(mm(Area::Module, "gc:global-without-preimage", format!("output global {}", y))),
+                }
+            }
+        }
+        for y in 0..b.n_tables() {
+            if !self.tables.rev.contains_key(&y) {
+                let cand = (0..a.n_tables())
+                    .find(|x| !self.tables.fwd.contains_key(x) && self.try_pair(|s| s.bind_table(*x, y, Area::Module, "gc leftover table")));
+                match cand {
+                    Some(x) => self.bind_table(x, y, Area::Module, "gc leftover table")?,
+                    None => return Err(mm(Area::Module, "gc:table-without-preimage", format!("output table {}", y))),
+                }
+            }
+        }
+        for y in 0..b.n_mems() {
+            if !self.mems.rev.contains_key(&y) {
+                let cand = (0..a.n_mems())
+                    .find(|x| !self.mems.fwd.contains_key(x) && self.try_pair(|s| s.bind_mem(*x, y, Area::Module, "gc leftover memory")));
+                match cand {
+                    Some(x) => self.bind_mem(x, y, Area::Module, "gc leftover memory")?,
+                    None => return Err(mm(Area::Module, "gc:memory-without-preimage", format!("output memory {}", y))),
+                }
+            }
+        }
+        self.drain()?;
+        // imports of the output: each needs a preimage among the input's
+        // imports with the same (module, field, type); most are bound already
+        // through the references followed above, the rest are matched in
+        // order; finally the preimages must appear in input order
+        let idx_in_space = |m: &ModuleD, pos: usize| -> u32 {
+            let k = std::mem::discriminant(&m.imports[pos].kind);
+            m.imports[..pos].iter().filter(|i| std::mem::discriminant(&i.kind) == k).count() as u32
+        };
+        let mut preimage_positions: Vec<usize> = Vec::new();
+        for (j, q) in b.imports.iter().enumerate() {
+            let y = idx_in_space(b, j);
+            let bound: Option<u32> = match &q.kind {
+                ImportKind::Func(_) => self.funcs.rev.get(&y).copied(),
+                ImportKind::Table(_) => self.tables.rev.get(&y).copied(),
+                ImportKind::Memory(_) => self.mems.rev.get(&y).copied(),
+                ImportKind::Global(_) => self.globals.rev.get(&y).copied(),
+                ImportKind::Tag => None,
+            };
+            let positions_a: &Vec<usize> = match &q.kind {
+                ImportKind::Func(_) => &a.imp_funcs,
+                ImportKind::Table(_) => &a.imp_tables,
+                ImportKind::Memory(_) => &a.imp_mems,
+                _ => &a.imp_globals,
+            };
+            if let Some(x) = bound {
+                match positions_a.get(x as usize) {
+                    Some(p) => preimage_positions.push(*p),
+                    None => {
+                        return Err(mm(
+                            Area::Module,
+                            "gc:import-bound-to-local-entity",
+                            format!("output import {} ({}.{}) corresponds to a non-imported input entity", j, q.module, q.name),
+                        ))
+                    }
+                }
+                continue;
+            }
+            let ctx = format!("import {}.{}", q.module, q.name);
+            let mut found = None;
+            for (x, p) in positions_a.iter().enumerate() {
+                let pi = &a.imports[*p];
+                if pi.module != q.module || pi.name != q.name {
+                    continue;
+                }
+                let x = x as u32;
+                let ok = match (&pi.kind, &q.kind) {
+                    (ImportKind::Func(ta), ImportKind::Func(tb)) => self.sig_eq(*ta, *tb) && !self.funcs.fwd.contains_key(&x),
+                    (ImportKind::Table(ta), ImportKind::Table(tb)) => ta == tb && !self.tables.fwd.contains_key(&x),
+                    (ImportKind::Memory(ta), ImportKind::Memory(tb)) => ta == tb && !self.mems.fwd.contains_key(&x),
+                    (ImportKind::Global(ta), ImportKind::Global(tb)) => ta == tb && !self.globals.fwd.contains_key(&x),
+                    _ => false,
+                };
+                if ok {
+                    found = Some((x, *p));
+                    break;
+                }
+            }
+            match found {
+                Some((x, p)) => {
+                    match &q.kind {
+                        ImportKind::Func(_) => self.bind_func(x, y, Area::Module, &ctx)?,
+                        ImportKind::Table(_) => self.bind_table(x, y, Area::Module, &ctx)?,
+                        ImportKind::Memory(_) => self.bind_mem(x, y, Area::Module, &ctx)?,
+                        ImportKind::Global(_) => self.bind_global(x, y, Area::Module, &ctx)?,
+                        ImportKind::Tag => {}
+                    }
+                    preimage_positions.push(p);
+                }
+                None => {
+                    return Err(mm(
+                        Area::Module,
+                        "gc:import-without-preimage",
+                        format!("output import {} ({}.{}) is not an import of the input with the same type", j, q.module, q.name),
+                    ))
+                }
+            }
+        }
+        self.drain()?;
+        // order: identical duplicates may be swapped freely, anything else
+        // must keep the input order
+        for w in preimage_positions.windows(2) {
+            if w[0] > w[1] && a.imports[w[0]] != a.imports[w[1]] {
+                return Err(mm(
+                    Area::Module,
+                    "gc:imports-reordered",
+                    format!("imports {:?} and {:?} changed their relative order", a.imports[w[1]], a.imports[w[0]]),
+                ));
+            }
+        }
+        // output types must be signatures of the input
+        let sa: std::collections::BTreeSet<String> = a.types.iter().map(|t| format!("{:?}", t)).collect();
+        for t in &b.types {
+            if !sa.contains(&format!("{:?}", t)) {
+                return Err(mm(Area::Module, "gc:type-invented", format!("output type {:?} is not a type of the input", t)));
+            }
         }
         Ok(())
     }
